@@ -20,6 +20,9 @@ type pathsIn struct {
 	E2E bool   `json:"e2e"`
 	// Arg: with E2E, the path is the argument of a property-comparison facet (next to another facet) instead of the key
 	Arg string `json:"arg,omitempty"`
+	// Where: with E2E, where in the validation the constraint sits: "" (the validation's own propertyConstraints),
+	// andFirst | andSecond | orFirst | orSecond | not | nested | atLeast | then
+	Where string `json:"where,omitempty"`
 }
 
 type pathAst struct {
@@ -107,9 +110,31 @@ func runPaths(in pathsIn) (out pathsOut) {
 		if in.Arg != "" {
 			pcs = map[string]any{"ex.a": map[string]any{"minCount": 1, in.Arg: in.S}}
 		}
+		expr := map[string]any{"propertyConstraints": pcs}
+		simple := map[string]any{"propertyConstraints": map[string]any{"ex.z": map[string]any{"minCount": 1}}}
+		body := map[string]any{"targetClass": "ex.T", "message": "m"}
+		switch in.Where {
+		case "andFirst":
+			body["and"] = []any{expr, simple}
+		case "andSecond":
+			body["and"] = []any{simple, expr}
+		case "orFirst":
+			body["or"] = []any{expr, simple}
+		case "orSecond":
+			body["or"] = []any{simple, expr}
+		case "not":
+			body["not"] = expr
+		case "nested":
+			body["propertyConstraints"] = map[string]any{"ex.child": map[string]any{"nested": expr}}
+		case "atLeast":
+			body["propertyConstraints"] = map[string]any{"ex.child": map[string]any{"atLeast": map[string]any{"count": 1, "validation": expr}}}
+		case "then":
+			body["if"], body["then"] = simple, expr
+		default:
+			body["propertyConstraints"] = pcs
+		}
 		doc := map[string]any{"profile": "p", "prefixes": prefixes, "violation": []any{"v"},
-			"validations": map[string]any{"v": map[string]any{"targetClass": "ex.T", "message": "m",
-				"propertyConstraints": pcs}}}
+			"validations": map[string]any{"v": body}}
 		b, _ := yaml.Marshal(doc)
 		func() {
 			defer func() {
